@@ -184,14 +184,13 @@ func c18(c *Ctx) {
 	if repo == "" {
 		repo = "/repo"
 	}
-	findings := os.Getenv("VERIF_FINDINGS") != ""
 	c.Rule = "grammars: the 5 shipped grammars (regenerated with gen.GenerateFile and compared byte-for-byte with the committed files), " +
 		"the other .tm files of the repository (ts and cc targets, compiler testdata), textual mutations of them (consistent symbol renames, shuffled keyword rules, toggled options) " +
 		"and random feature grammars for go/ts/cc (class rule + keywords, aliases and named references in semantic actions, typed symbols, lists with separators, optionals and opt-suffix instantiation, nested choices with mid-rule actions, " +
 		"precedence, several inputs, lalr(2) conflicts resolved by the lookahead trie, state markers incl. .greedy, token sets, template flags); mutated/random grammars that do not compile are dropped. " +
 		"Each grammar: generated k times in this process and in child processes with GOMAXPROCS=1 and 16 (every run draws fresh random map orders), digests of all Writer.Write calls (names, order, content) compared; " +
 		"non-trivial = a grammar that generated at least one file; distinct by grammar text. inv cases: Remap injective / ArgRefs[k].Pos==k on the compiled grammars; site cases: inventory of tools/factgen on the tree under test vs the Lean classification. " +
-		"EXCLUDED input class (finding C18-opt-alias-collision): aliasIncludesOptSuffix = false together with a rule that names both `x` and `x<optsuffix>`; set VERIF_FINDINGS=1 to include the witness and flag it."
+		"The class of the fixed finding C18-opt-alias-collision (aliasIncludesOptSuffix = false with a rule naming both `x` and `x<optsuffix>`) is generated: the witness grammar (40 in-process + 24 child runs) and about a third of the random grammars."
 
 	tmp, err := os.MkdirTemp("", "tmh-c18-")
 	must(err)
@@ -256,7 +255,7 @@ func c18(c *Ctx) {
 		}
 	}
 	for i, tries := 0, 0; i < nRand && tries < 4*nRand; tries++ {
-		text, feats := c18RandGrammar(c.Rng, fmt.Sprintf("g%d", i), findings)
+		text, feats := c18RandGrammar(c.Rng, fmt.Sprintf("g%d", i))
 		if addText("random", fmt.Sprintf("rand%d", i), text) {
 			for _, f := range feats {
 				c.Count("feature-" + f)
@@ -264,10 +263,9 @@ func c18(c *Ctx) {
 			i++
 		}
 	}
-	if findings {
-		must(os.WriteFile(filepath.Join(tmp, "witness.tm"), []byte(c18Witness), 0o644))
-		pool = append(pool, c18Gram{Name: "witness-opt-alias", Path: filepath.Join(tmp, "witness.tm"), Text: c18Witness, Kind: "witness"})
-	}
+	// witness of the fixed finding C18-opt-alias-collision: must be deterministic now
+	must(os.WriteFile(filepath.Join(tmp, "witness.tm"), []byte(c18Witness), 0o644))
+	pool = append(pool, c18Gram{Name: "witness-opt-alias", Path: filepath.Join(tmp, "witness.tm"), Text: c18Witness, Kind: "witness"})
 
 	// ---- 2. children first (they run in parallel with the in-process work below)
 	type childJob struct {
@@ -563,6 +561,9 @@ func c18Mutate(r *rand.Rand, text string) string {
 		return strings.Replace(s, "false", "true", 1)
 	})
 	for _, opt := range []string{"optimizeTables", "defaultReduce", "minimizeDFA", "tokenColumn", "tokenLineOffset"} {
+		if opt == "optimizeTables" && strings.Contains(text, "lalr(") {
+			continue // crashes the generator (recorded under C22)
+		}
 		if r.Intn(3) == 0 && !regexp.MustCompile(`(?m)^`+opt+`\s*=`).MatchString(text) {
 			if i := strings.Index(text, "\n::"); i >= 0 {
 				text = text[:i] + "\n" + opt + " = true" + text[i:]
@@ -654,7 +655,7 @@ var c18Words = []string{"let", "call", "when", "loop", "stop", "emit", "load", "
 
 // c18RandGrammar renders a random statement-language grammar. The shape keeps it LALR(1) (every statement
 // alternative starts with its own keyword) except for the deliberate lalr(2) idiom.
-func c18RandGrammar(r *rand.Rand, name string, findings bool) (string, []string) {
+func c18RandGrammar(r *rand.Rand, name string) (string, []string) {
 	var feats []string
 	feat := func(f string) { feats = append(feats, f) }
 	pick := func(p int) bool { return r.Intn(100) < p }
@@ -691,8 +692,18 @@ func c18RandGrammar(r *rand.Rand, name string, findings bool) (string, []string)
 		opts = append(opts, "genSelector", "tokenStream")
 	}
 	r.Shuffle(len(opts), func(a, b int) { opts[a], opts[b] = opts[b], opts[a] })
+	// Two generator crashes recorded under C22 are kept out of the stream (they would only be dropped by the
+	// child-process pre-check): optimizeTables with lalr(k) (lalr/optimize.go log.Fatal) and writeBison with a
+	// nested choice carrying a mid-rule action (grammar/gen.go log.Fatalf).
+	la2 := lang == "go" && pick(35)
+	chosen := map[string]bool{}
 	for _, o := range opts[:r.Intn(5)] {
-		fmt.Fprintf(&sb, "%s = %v\n", o, pick(70))
+		v := pick(70)
+		if o == "optimizeTables" && la2 {
+			v = false
+		}
+		chosen[o] = v
+		fmt.Fprintf(&sb, "%s = %v\n", o, v)
 	}
 	optSuffix := "opt"
 	if pick(25) {
@@ -700,7 +711,7 @@ func c18RandGrammar(r *rand.Rand, name string, findings bool) (string, []string)
 		fmt.Fprintf(&sb, "optInstantiationSuffix = %q\n", optSuffix)
 		feat("custom-opt-suffix")
 	}
-	if findings && pick(30) {
+	if pick(30) {
 		sb.WriteString("aliasIncludesOptSuffix = false\n")
 		feat("alias-without-opt-suffix")
 	}
@@ -751,7 +762,6 @@ func c18RandGrammar(r *rand.Rand, name string, findings bool) (string, []string)
 	}
 
 	// ---- parser
-	la2 := lang == "go" && pick(35)
 	if la2 {
 		sb.WriteString("\n:: parser lalr(2)\n\n")
 		feat("lalr2-trie")
@@ -824,13 +834,14 @@ func c18RandGrammar(r *rand.Rand, name string, findings bool) (string, []string)
 	if pick(70) {
 		stmts = append(stmts, fmt.Sprintf("%s Ident%s ';'  -> Jump", kw(4), optSuffix))
 		feat("opt-suffix")
-		if findings && pick(50) {
-			// finding class: both `Ident` and `Ident<suffix>` named in one rule
+		if pick(50) {
+			// class of the fixed finding: both `Ident` and `Ident<suffix>` named in one rule
+			feat("name-and-opt-name-in-one-rule")
 			stmts = append(stmts, fmt.Sprintf("%s Ident Ident%s ':'%s  -> Jump2", kw(4), optSuffix, posAct("Jump2", "Ident", "Ident")))
 		}
 	}
 	// 4: nested choice with mid-rule actions
-	if pick(60) && lang != "ts" {
+	if pick(60) && lang != "ts" && !chosen["writeBison"] {
 		mid := " { /* mid */ }"
 		stmts = append(stmts, fmt.Sprintf("%s ( Ident[id]%s '!' | Number[num] '?' ) ';'  -> Choice", kw(5), mid))
 		feat("nested-choice-midrule")
